@@ -97,6 +97,19 @@ func init() {
 		}
 		impureModel["(*github.com/cilium/ebpf.Map)."+name] = true
 	}
+	// os.WriteFile / os.Remove: file-system effects only (no effect on the modelled Go state, results
+	// unconstrained, as for the rest of package os); observable through the function-level ghost
+	// counters fsWrites / fsRemoves when the contract of the verified function declares them.
+	for name, g := range map[string]string{"os.WriteFile": "fsWrites", "os.Remove": "fsRemoves"} {
+		g := g
+		libModels[name] = func(fv *funcVerifier, st *State, call *ast.CallExpr, fn *types.Func) []smt.Term {
+			fv.evalArgs(st, call, fn.Type().(*types.Signature))
+			if cur, ok := st.ghost[g]; ok && !st.dead() {
+				st.ghost[g] = fv.c.Let("ghost_"+g, smt.Add(cur, smt.IntLit(1)))
+			}
+			return fv.freshResults(st, call, fn.Name())
+		}
+	}
 	allocOnly := func(fv *funcVerifier, st *State, call *ast.CallExpr, fn *types.Func) []smt.Term {
 		for _, a := range call.Args {
 			fv.evalExpr(st, a)
@@ -121,6 +134,10 @@ func init() {
 	}
 	ifaceModels["(io.Closer).Close"] = noEff
 	ifaceModels["(io.ReadCloser).Close"] = noEff
+	// directory entries returned by os.ReadDir: read-only accessors of library values
+	for _, m := range []string{"IsDir", "Name", "Type"} {
+		ifaceModels["(io/fs.DirEntry)."+m] = noEff
+	}
 
 	// sort.Strings(x): a sorted permutation of the old contents, given by two mutually inverse index
 	// maps over indices RELATIVE to the slice offset (element terms keep the shape
@@ -217,8 +234,10 @@ func init() {
 	AssumedLib = append(AssumedLib,
 		"(*json.Decoder).Decode: stores an arbitrary type-valid value through the pointer argument, may allocate, changes nothing else; json.NewDecoder/NewEncoder/(*Encoder).Encode, io.ReadAll: allocate only",
 		"(io.Closer).Close: no effect on the modelled heap",
+		"(io/fs.DirEntry).IsDir/Name/Type: no effect on the modelled heap, unconstrained results",
 		"cilium/ebpf Map.Lookup / LookupAndDelete(key, out): on a nil error store an arbitrary type-valid value through out, on an error leave out untouched; change nothing else of the Go state",
 		"sort.Strings(x): afterwards x[0:len(x)] is a permutation of its previous contents and no later element is str_lt an earlier one; nothing else changes",
 		"slices.Compact(x): in place; the result has the elements of x in order (strictly increasing source positions) without adjacent repeats (index maps both ways), adjacent elements differ, len <= len(x)",
+		"os.WriteFile / os.Remove: no effect on the modelled Go state, unconstrained error; each call increments the function-level ghost counter fsWrites / fsRemoves when declared",
 		"reads of exported fields of library structs modelled as opaque (e.g. http.Request.Method) are unconstrained")
 }
